@@ -91,7 +91,7 @@ class Oracle:
             return self.log(*a[:4])
         if name in ("G", "Gf"):
             return [] if a[2] < self.THR else self.log(*a[:4])
-        if name == "W":
+        if name in ("W", "Wv"):          # sweep through sc_log / through sc_logf: the same demand for EVERY package id
             out, m = [], a[1]
             for c in CATS:
                 for q in PRIOS:
@@ -120,7 +120,24 @@ def parse_groups(line):
 def table_scenarios(full):
     """the complete finite table of the property"""
     out = ["W -1 0"]                 # first scenario: pristine library (static initial values)
+    # sc_logf with an id that is not registered must reach the DEFAULT handler and must not end the process
+    # (repair 622fcc2 of sc_logv; the mutex of such an id is destroyed, never initialised or out of bounds).
+    # The registered-then-unregistered case comes first: a library that locks the id as given dies there at once.
+    for dh in (0, 1):
+        for init in (None, 0, 1):
+            pre = ["D 0 %d 0" % dh] + (["I %d 0 -1" % init] if init is not None else [])
+            reg = 0 if init is None else 1
+            # ids reg, reg+1 registered, reg+1 unregistered again
+            out.append(";".join(pre + ["R 2 0", "R 3 0", "U %d" % (reg + 1), "Lv %d 2 5 1" % (reg + 1), "Wv %d 10" % (reg + 1),
+                                       "Gf %d 2 5 2" % (reg + 1), "Lv %d 1 7 3" % (reg + 1), "R 4 0", "Lv %d 2 5 4" % (reg + 1)]))
+            # the table has 3 slots now: the last one was never registered; 3 is the first id beyond the table
+            nv = 2
+            out.append(";".join(pre + ["R 2 0"] + (["R 3 0"] if init is None else []) + ["Lv %d 2 5 1" % nv, "Wv %d 10" % nv, "Gf %d 2 5 2" % nv]))
+            out.append(";".join(pre + ["R 2 0"] + (["R 3 0"] if init is None else []) + ["Lv 3 2 5 1", "Wv 3 10", "Gf 3 2 5 2", "Lv 1000 2 5 3", "Wv 1000 100"]))
+            out.append(";".join(pre + ["Lv 0 2 5 1", "Wv 7 10"] if init is None else pre + ["Lv 1 2 5 1", "Wv 7 10"]))   # empty / one-slot table
+            out.append(";".join(pre + ["R 2 0", "Lv -7 2 5 1", "Wv -2 10", "Gf -3 2 5 2"]))
     thr = list(range(-1, 10))
+    nprod = 0
     for dthr, pthr, dh, ph, s, init in itertools.product(thr, thr, (0, 1), (0, 2), (0, 2), (None, 0, 1)):
         ops = ["D %d %d %d" % (s, dh, dthr)]
         reg = 0
@@ -136,11 +153,14 @@ def table_scenarios(full):
         ids = [reg, -1, reg + 1] + ([2] if init is None else []) + [3, 1000, -7]
         for k, p in enumerate(ids):
             ops.append("W %d %d" % (p, 70 * k))
+        # the same sweep through sc_logf for one of the ids (all kinds in turn over the table)
+        ops.append("Wv %d %d" % (ids[nprod % len(ids)], 70 * len(ids)))
+        nprod += 1
         out.append(";".join(ops))
     # a slot that was registered (custom handler, threshold ALWAYS) and unregistered again; reuse of the slot
     for dthr in thr:
         for t2 in thr:
-            out.append("D 0 1 %d;R 2 0;R 3 5;U 0;W 0 0;W 1 70;R 4 %d;W 0 140;V 0 %d;W 0 210;V 1 -1;W 1 280" % (dthr, t2, (t2 + 3) % 11 - 1))
+            out.append("D 0 1 %d;R 2 0;R 3 5;U 0;W 0 0;Wv 0 350;W 1 70;R 4 %d;W 0 140;V 0 %d;W 0 210;V 1 -1;W 1 280;Wv 1 420" % (dthr, t2, (t2 + 3) % 11 - 1))
     # trace stream: its own bound, independent of thresholds, for every bound
     for tprio in range(-1, 11):
         for dthr in (-1, 3, 9):
@@ -158,13 +178,13 @@ def table_scenarios(full):
         reg = 0
         if init is not None:
             ops.append("I 1 0 0"); reg = 1
-        ops.append("R 2 0")
+        ops += ["R 2 0", "R 3 0", "U %d" % (reg + 1)]          # reg + 1: registered and unregistered again
         m = 0
         for c in CATS:
             for q in PRIOS:
-                for p in (reg, -1, 500, -3):
+                for p in (reg, -1, 500, -3, reg + 1):
                     ops.append("G %d %d %d %d" % (p, c, q, m)); m += 1
-                for p in (reg, -1):
+                for p in (reg, -1, 500, -3, reg + 1):
                     ops.append("Gf %d %d %d %d" % (p, c, q, m)); m += 1
                     ops.append("Lv %d %d %d %d" % (p, c, q, m)); m += 1
         out.append(";".join(ops))
@@ -211,15 +231,15 @@ def history_scenarios(rng, n):
             elif r < 0.66:
                 ops.append("T %d %d" % (rng.choice((0, 3, 3)), rng.randrange(-1, 11)))
             elif r < 0.80:
-                ops.append("W %d %d" % (rng.choice(anyp), m)); m += 70
+                ops.append("%s %d %d" % (rng.choice(("W", "W", "Wv")), rng.choice(anyp), m)); m += 70
             elif r < 0.88:
                 ops.append("L %d %d %d %d" % (rng.choice(anyp), rng.choice((1, 2, 2, 0, 3)), rng.randrange(-1, 11), m)); m += 1
             elif r < 0.93:
-                ops.append("Lv %d %d %d %d" % (rng.choice(legal), rng.choice((1, 2)), rng.randrange(0, 10), m)); m += 1
+                ops.append("Lv %d %d %d %d" % (rng.choice(anyp), rng.choice((1, 2)), rng.randrange(0, 10), m)); m += 1
             elif r < 0.97:
                 ops.append("G %d %d %d %d" % (rng.choice(anyp), rng.choice((1, 2)), rng.randrange(0, 10), m)); m += 1
             else:
-                ops.append("Gf %d %d %d %d" % (rng.choice(legal), rng.choice((1, 2)), rng.randrange(0, 10), m)); m += 1
+                ops.append("Gf %d %d %d %d" % (rng.choice(anyp), rng.choice((1, 2)), rng.randrange(0, 10), m)); m += 1
         # always end with a look at every package
         for p in [-1] + sorted(pk)[:3]:
             ops.append("W %d %d" % (p, m)); m += 70
@@ -247,7 +267,11 @@ def compare(ctx, label, scen, impl_lines, model_lines, rank, dbg, stats):
         for j, tok in enumerate(toks):
             exp = sorted(orc.op(tok, ig[j]))
             name = tok.split()[0]
-            ncalls = 70 if name == "W" else (1 if name in ("L", "Lv", "G", "Gf") else 0)
+            ncalls = 70 if name in ("W", "Wv") else (1 if name in ("L", "Lv", "G", "Gf") else 0)
+            if name in ("Lv", "Gf", "Wv"):
+                stats["logf_calls"] = stats.get("logf_calls", 0) + ncalls
+                if int(tok.split()[1]) != -1 and not (int(tok.split()[1]) in orc.pk):
+                    stats["logf_unregistered"] = stats.get("logf_unregistered", 0) + ncalls
             calls += ncalls
             stats["calls"] += ncalls
             stats["deliveries"] += sum(1 for e in ig[j] if e[0] == 0)
@@ -261,9 +285,9 @@ def compare(ctx, label, scen, impl_lines, model_lines, rank, dbg, stats):
                     call = ""
                     w = tok.split()
                     d = (miss + extra)[0] if (miss + extra) else None
-                    if w[0] == "W" and d is not None and len(d) == 7 and 0 <= d[6] - int(w[2]) < 70:
+                    if w[0] in ("W", "Wv") and d is not None and len(d) == 7 and 0 <= d[6] - int(w[2]) < 70:
                         k = d[6] - int(w[2])
-                        call = " first differing call: sc_log (package=%s, category=%d, priority=%d);" % (w[1], CATS[k // 14], PRIOS[k % 14])
+                        call = " first differing call: %s (package=%s, category=%d, priority=%d);" % ("sc_log" if w[0] == "W" else "sc_logf", w[1], CATS[k // 14], PRIOS[k % 14])
                     ctx.violation("filter:%s:%s" % (label.split()[0], tok.replace(" ", "_"))[:70],
                                   "libsc (%s, rank %d) operation '%s' of scenario '%s...':%s handler invocations differ from the property: "
                                   "missing %s, unexpected %s (event = kind,handler,stream,package,category,priority,msg)"
@@ -325,32 +349,75 @@ def run(ctx):
     def run_serial(exe, label, scn, txt, dbg):
         """run the harness; when the process dies, localise the scenario, report it as the failing input and
         still judge the scenarios before it"""
-        rc, impl, err = ctx.run_lines([exe], txt, timeout=1200, env=env)
-        impl = impl[:-1] if impl and impl[-1] == "" else impl
+        # the head of the file first, with a short time limit: a library that deadlocks or dies in the pristine state or in
+        # sc_logf with an unregistered id (the first scenarios) is reported within seconds
+        head = scn[:40]
+        rc, impl, err = ctx.run_lines([exe], "\n".join(head) + "\n", timeout=30, env=env)
+        if rc != 0:
+            scn = head
+        else:
+            rc, impl, err = ctx.run_lines([exe], txt, timeout=(300 if ctx.quick else 3600), env=env)
+        if rc != 0:
+            impl = impl[:-1]          # the last piece is empty or the unfinished line of the scenario that died
+        else:
+            impl = impl[:-1] if impl and impl[-1] == "" else impl
         if rc != 0:
             k = min(len(impl), len(scn) - 1)
             if k < len(impl):
                 impl = impl[:k]
-            rc1, o1, e1 = ctx.run_lines([exe], scn[k] + "\n", timeout=120, env=env)
+            # one scenario takes milliseconds: 10 s without an answer is a process that does not return (deadlock).
+            # The library is only reset, not restarted, between scenarios (a mutex left locked survives): when the scenario
+            # alone is harmless, the previous one is made part of the failing input.
+            def dies(lines):
+                r = ctx.run_lines([exe], "\n".join(lines) + "\n", timeout=10, env=env)
+                return r[0], r[2]
+            pre = []
+            rc1, e1 = dies([scn[k]])
+            if rc1 == 0 and k > 0:
+                pre = [scn[k - 1]]
+                rc1, e1 = dies(pre + [scn[k]])
             if rc1 != 0:
+                # shortest prefix of the scenario that still ends the process (binary search, then confirmed)
+                toks = scn[k].split(";")
+                lo, hi = 1, len(toks)
+                while lo < hi:
+                    mid = (lo + hi) // 2
+                    if dies(pre + [";".join(toks[:mid])])[0] != 0:
+                        hi = mid
+                    else:
+                        lo = mid + 1
+                rc2, e2 = dies(pre + [";".join(toks[:hi])])
+                short = ";".join(toks[:hi]) if rc2 != 0 else scn[k]
+                if rc2 != 0:
+                    rc1, e1 = rc2, e2
+                last = short.split(";")[-1]
+                what = ""
+                if last.split()[0] in ("Lv", "Gf", "Wv"):
+                    what = " (sc_logf with package id %s)" % last.split()[1]
                 ctx.violation("crash:%s" % label.replace(" ", "_"),
-                              "libsc (%s) ends the process (exit %s) inside scenario '%s': %s" % (label, rc1, scn[k][:200], e1.strip()[-300:].replace("\n", " | ")),
-                              dict(scenario=scn[k], variant=label, stderr=e1[-1500:]))
+                              "libsc (%s) %s in operation '%s'%s of scenario '%s'%s where the property demands a delivery or silence: %s"
+                              % (label, ("does not return (no answer within 10 s: deadlock)" if rc1 == 124 else "ends the process (exit %s)" % rc1),
+                                 last, what, short[-200:], (" run after scenario '%s'" % pre[0][-160:] if pre else ""),
+                                 e1.strip()[-300:].replace("\n", " | ")),
+                              dict(scenario=short, scenarios=pre + [short], full_scenario=scn[k], variant=label, stderr=e1[-1500:]))
             else:
-                ctx.tie_broken("c19 harness run (%s)" % label, "exit %s in scenario %d, not reproducible in isolation: %s" % (rc, k, err[-1200:]))
+                ctx.tie_broken("c19 harness run (%s)" % label, "exit %s in scenario %d, not reproducible in isolation nor after its predecessor: %s" % (rc, k, err[-1200:]))
             scn = scn[:len(impl)]
             txt = "\n".join(scn) + "\n"
         if scn:
             compare(ctx, label, scn, impl, model_lines(0, dbg, txt), 0, dbg, stats)
+        return rc == 0
 
     # 1. serial build (pinned configuration): identifiers -1 and 0
     v = ctx.variant(mpi="off", san=True)
     exe = ctx.cc([harness], os.path.join(ctx.scratch, "c19_serial"), v)
-    run_serial(exe, "serial release", scen, text, False)
+    serial_ok = run_serial(exe, "serial release", scen, text, False)
     ctx.log("serial: %d scenarios, %d log calls so far" % (stats["scenarios"], stats["calls"]))
 
     # 2. OpenMPI build on 4 ranks: identifiers 0, 1, 2, 3 (the table needs an identifier > 0)
     try:
+        if not serial_ok:
+            raise RuntimeError("skipped")
         vm = ctx.variant(mpi="ompi", san=False)
         exem = ctx.cc([harness], os.path.join(ctx.scratch, "c19_mpi"), vm)
         outp = os.path.join(ctx.scratch, "c19_mpi_out")
@@ -365,6 +432,8 @@ def run(ctx):
                 lines = lines[:-1] if lines and lines[-1] == "" else lines
                 # ranks 1, 2 differ from rank 3 only in the number the built-in handler prints, which is not compared
                 compare(ctx, "ompi release", scen, lines, ml[0] if r == 0 else ml[3], r, False, stats)
+    except RuntimeError:
+        ctx.log("mpi: not run - the serial build already ends the process or hangs on the same scenario file (reported above)")
     except vlib.BuildError as e:
         ctx.tie_broken("c19 OpenMPI build (identifier > 0 cannot be exercised)", str(e)[-1200:])
     ctx.log("mpi: %d scenarios, %d log calls so far" % (stats["scenarios"], stats["calls"]))
@@ -378,41 +447,29 @@ def run(ctx):
     exed = ctx.cc([harness], os.path.join(ctx.scratch, "c19_debug"), vd)
     run_serial(exed, "serial debug", sub, subtext, True)
 
-    # 4. the recorded finding: sc_logf with an id that is no longer registered (mutex destroyed)
-    crash = "R 0 -1;U 0;Lv 0 2 5 1\n"
-    rc, o1, e1 = ctx.run_lines([exe], crash, timeout=60, env=env)
-    mo = model_lines(0, False, crash)
-    if rc != 0:
-        ctx.violation("logv-unregistered-package",
-                      "sc_logf (package no longer registered) ends the process (exit %s: %s) where sc_log treats the id as the default package"
-                      % (rc, (" ".join(o1) + e1).strip()[-160:].replace("\n", " ")),
-                      dict(scenario=crash.strip(), variant="serial release (SC_ENABLE_PTHREAD)"))
-        if mo is not None and "ABORT" not in " ".join(mo):
-            ctx.tie_broken("model of sc_logv", "libsc dies on '%s' but the model delivers: %s" % (crash.strip(), mo))
-    else:
-        ctx.tie_broken("model of sc_logv (lock of an unregistered package)",
-                       "libsc survives '%s' (output %s) but the model, following sc_logv's lock of the given id, says the process ends; "
-                       "if sc_logv was repaired remove the finding and the _refuted theorem" % (crash.strip(), o1[:2]))
-    ctx.count_case(("crash", crash), nontrivial=True)
-
     ctx.cov["disagreements_checked"] = stats["scenarios"]
     ctx.cov["exhaustive"] = True
     ctx.cov["rule"] = ("COMPLETE table: default threshold -1..9 x package threshold -1..9 x default handler builtin/custom x package handler "
                        "NULL/custom x log stream NULL/given x (no sc_init | sc_init without communicator | with communicator) x package id "
-                       "(registered, -1, unregistered inside the table, beyond the table, negative) x category -1..3 x priority -2..11, on ranks "
+                       "(registered, -1, unregistered inside the table, beyond the table, negative) x category -1..3 x priority -2..11 through sc_log, and "
+                       "through sc_logf for one id kind per cell in turn, on ranks "
                        "0..3 of an OpenMPI run (identifier 0..3) and in the serial build (identifier -1, 0); slots registered, unregistered and "
                        "reused with every threshold; trace bound -1..10 x thresholds x handlers; SC_GEN_LOG/SC_GEN_LOGF/sc_logf for every "
-                       "category x priority; plus seeded histories (register/unregister/set_verbosity/set_log_defaults/init/finalize/trace "
+                       "category x priority x id kind (registered, -1, beyond the table, negative, registered-then-unregistered); sc_logf/SC_GEN_LOGF "
+                       "sweeps with ids that are not registered (unregistered again, never registered inside the table, beyond the table, empty table, "
+                       "negative) x default handler x init; plus seeded histories (register/unregister/set_verbosity/set_log_defaults/init/finalize/trace "
                        "interleaved with sweeps); release and debug configuration.  evaluations = scenarios x build/rank; a scenario is "
                        "non-trivial if some handler was invoked; distinct = distinct (variant, rank, scenario)")
     ctx.notes["log_calls_evaluated"] = stats["calls"]
     ctx.notes["handler_invocations_observed"] = stats["deliveries"]
+    ctx.notes["sc_logf_calls_evaluated"] = stats.get("logf_calls", 0)
+    ctx.notes["sc_logf_calls_with_unregistered_id"] = stats.get("logf_unregistered", 0)
     ctx.notes["scenarios"] = dict(table=len(table), histories=len(hist), debug_subset=len(sub))
     ctx.notes["oracle_mismatches"] = stats.get("oracle_mismatches", 0)
     ctx.notes["model_mismatches"] = stats.get("model_mismatches", 0)
     ctx.notes["input_distribution"] = ("table scenarios are enumerated, not sampled; histories: 5-40 operations, D 10%, R 18%, U 10%, V 14%, "
-                                       "I 5%, F 3%, T 6%, sweep 14%, sc_log 8%, sc_logf 5%, SC_GEN_LOG 4%, SC_GEN_LOGF 3%, package ids from "
-                                       "{-1, registered, 0..11, 1000, negative}")
+                                       "I 5%, F 3%, T 6%, sweep 14% (one third of them through sc_logf), sc_log 8%, sc_logf 5%, SC_GEN_LOG 4%, SC_GEN_LOGF 3%, "
+                                       "package ids of every call from {-1, registered, 0..11, 1000, negative}")
     for s in (table[1], table[len(table) // 2], hist[0]):
         ctx.sample({"scenario": s[:300]})
     ctx.cov["trusted_base"] = ["tools/c2g translator with the event extension of tools/c2g/groups_C19.py and clang-14's JSON AST "
@@ -421,6 +478,5 @@ def run(ctx):
                                "glibc: stdout is an assignable FILE* and open_memstream (the harness observes the built-in handler through them)",
                                "OpenMPI's mpirun for the ranks 1..3 (only MPI_Comm_rank is used)"]
     ctx.assumptions += ["sc_package_id is -1 or a registered id whenever libsc logs on its own behalf (SC_LERRORF inside sc_package_is_registered)",
-                        "sc_logf/sc_logv/SC_GEN_LOGF are called with -1 or a registered id (documented precondition; the unregistered case is the recorded finding)",
                         "SC_TRACE_FILE is not set in the environment; handlers do not log themselves"]
     return "proof"
